@@ -206,8 +206,55 @@ def earlyret(src, path):
   return ast.unparse(ast.fix_missing_locations(t)) + '\n'
 
 
+def tempify(src, path):
+  """x = f(g(a), b)  ->  _t1 = g(a); x = f(_t1, b)   for plain assignments
+  and returns inside functions (only the first positional call argument, only
+  when that argument is itself a call; evaluation order is unchanged)"""
+  counter = [0]
+
+  class Tm(ast.NodeTransformer):
+    def _block(self, body, infunc):
+      out = []
+      for st in body:
+        st = self.visit(st)
+        if infunc and isinstance(st, (ast.Assign, ast.Return)) and \
+                isinstance(st.value, ast.Call) and st.value.args and \
+                isinstance(st.value.args[0], ast.Call) and \
+                not any(isinstance(a, ast.Starred) for a in st.value.args):
+          counter[0] += 1
+          nm = '_tmp%d' % counter[0]
+          out.append(ast.Assign(targets=[ast.Name(nm, ast.Store())],
+                                value=st.value.args[0]))
+          st.value.args[0] = ast.Name(nm, ast.Load())
+        out.append(st)
+      return out
+
+    def visit_FunctionDef(self, node):
+      self.infunc = True
+      self.generic_visit(node)
+      return node
+
+    def generic_visit(self, node):
+      infunc = getattr(self, 'infunc', False) or \
+          isinstance(node, ast.FunctionDef)
+      for fld in ('body', 'orelse', 'finalbody'):
+        b = getattr(node, fld, None)
+        if isinstance(b, list) and b and isinstance(b[0], ast.stmt):
+          if isinstance(node, ast.FunctionDef):
+            self.infunc = True
+          setattr(node, fld, self._block(b, getattr(self, 'infunc', False)))
+      for h in getattr(node, 'handlers', []):
+        h.body = self._block(h.body, getattr(self, 'infunc', False))
+      if isinstance(node, ast.ClassDef) or isinstance(node, ast.Module):
+        pass
+      return node
+  t = ast.parse(src)
+  Tm().visit(t)
+  return ast.unparse(ast.fix_missing_locations(t)) + '\n'
+
+
 T = dict(roundtrip=roundtrip, rename=rename, dot=dot, ifswap=ifswap,
-         matmul=matmul, cmpflip=cmpflip, isnot=isnot, earlyret=earlyret)
+         matmul=matmul, cmpflip=cmpflip, isnot=isnot, earlyret=earlyret, tempify=tempify)
 
 
 def run(name, checks, keep=None):
